@@ -14,7 +14,10 @@ CHECKS = {
          "client-view replay clauses (count never shrinks, EXPUNGE/FETCH in range, no EXPUNGE during non-UID "
          "FETCH/STORE/SEARCH, sent/accepted numbers denote the same UID, view = server list after a flush).", "3 C01", MAIL_NOTE, MAIL_TECH),
  "C02": ("UID monotonicity / no reuse / UIDNEXT above all / APPENDUID+COPYUID honesty / UIDVALIDITY freshness as action "
-         "properties on the model and on traces that include restarts, pack, rename, delete+create.", "3 C02", MAIL_NOTE, MAIL_TECH),
+         "properties on the model and on traces that include restarts, pack, rename, delete+create. Added: mailboxes CREATEd "
+         "concurrently by 2-3 sessions under seeded schedules, names then freed and taken again; the recorded (name, UIDVALIDITY, "
+         "incarnation) observations are validated by TLC (spec/TraceVv.tla).", "3 C02", MAIL_NOTE,
+         MAIL_TECH + "; TLC validation of UIDVALIDITY observations from concurrent CREATE runs (spec/TraceVv.tla)"),
  "C03": ("(UIDVALIDITY, UID) -> message identity and internal date preserved across every step (expunge, pack, "
          "rename, restart, deliveries), RENAME INBOX moves every message with flags and internal date; position/uid/key/file "
          "bijection at every command boundary.", "3 C03", MAIL_NOTE, MAIL_TECH),
